@@ -129,6 +129,8 @@ def curl_of(c, cfg=None):
     h = ""
     if q.get("has_auth"):
         h = " -H %s" % json.dumps("Authorization: " + unhex(q["auth"]).decode("latin1"))
+    if q.get("auth2"):
+        h += " -H %s" % json.dumps("Authorization: " + unhex(q["auth2"]).decode("latin1"))
     if q.get("gzip"):
         h += " -H 'Accept-Encoding: gzip'"
     if q.get("origin") or q.get("preflight"):
@@ -160,8 +162,16 @@ def run(ck):
 def run_locked(ck):
     ck.trusted += [
         "C20: translate/gen_routes' reading of main.go and of the functions the router value is passed to (go/ast; package main cannot be linked). "
-        "Checked by: every registration call site of a file importing gorilla/mux must be reached (else OUnknown fails assembly_ok), and "
+        "Checked by: every registration call site of a file importing gorilla/mux must be reached (else OUnknown fails assembly_ok), the census of "
+        "every http.Serve / ListenAndServe / http.Server / net.Listen / mux.NewRouter / NewServeMux / fasthttp / fiber / grpc site of every non-test "
+        "source file (all build tags) must be explained by an interpreted operation (else OUnknown / OServeOther), and "
         "router.Walk of the real router built from the same assembly must list exactly the assembly's routes",
+        "C20: the census is syntactic (go/ast without type information): a server started by a dependency (third-party package) or through a value "
+        "whose type hides the call (an interface wrapping http.Server) is outside it; http.DefaultServeMux is shown unreachable only with respect "
+        "to serving calls in the repository's own sources",
+        "C20: 'pass-through' of AcceptEncoding / Cors / Logging = the translator's path analysis of their handler bodies (exactly one next.ServeHTTP on "
+        "every path, no answer written before it) + the measured probe of the three wrappers alone; what their ResponseWriter wrappers do to the "
+        "answer of BasicAuth is covered by the route-by-route comparison only",
         "C20: gorilla/mux v1.8.1 dispatch as transcribed in model/Router.v (first full match; 405/404 without middleware; middlewares of the "
         "router chain applied at match time) -- measured on every run by the harness's mux probe and the route-by-route comparison; net/http",
         "C20: condition atoms are treated as independent booleans (over-approximation: mode == all and mode == writer may both hold); "
@@ -193,8 +203,9 @@ def run_locked(ck):
     ck.obligation("census: nothing serves http.DefaultServeMux (a nil handler), so what http.Handle / pprof / expvar register there is unreachable",
                   not asm.get("default_mux_served"), "served at %s; registered patterns %s" % (asm.get("default_mux_served"), asm.get("default_mux_patterns")))
     opaque = {o["mw"]: o["opaque"] for o in ops if o["op"] == "use" and o.get("opaque")}
-    ck.obligation("source of the wrappers the model treats as pass-through (AcceptEncoding, Cors, Logging): every path through the handler "
+    ck.obligation("source of the middlewares: BasicAuthMiddleware reads nothing of the request but the Authorization header; the wrappers the model treats as pass-through (AcceptEncoding, Cors, Logging): every path through the handler "
                   "calls next.ServeHTTP exactly once and nothing answers before it", not opaque, json.dumps(opaque))
+    ck.extra["routes_accepting_OPTIONS"] = sorted(set(o["tpl"] for o in ops if o["op"] == "route" and (not o.get("methods") or "OPTIONS" in o["methods"])))
     ck.extra["server_census"] = {"counts": asm.get("census_counts"), "sites": census,
                                  "default_mux_patterns": asm.get("default_mux_patterns"), "default_mux_served": asm.get("default_mux_served"),
                                  "pass_through_source": asm.get("pass_through_source")}
@@ -265,6 +276,20 @@ def run_locked(ck):
     ck.obligation("AcceptEncoding / Cors / Logging call next exactly once and pass its status on, for every method (incl. OPTIONS) and header set "
                   "(pre-flight, Access-Control-Request-Method alone, websocket upgrade, gzip): %d probes" % (mwp[0]["n"] if mwp else 0),
                   bool(mwp) and mwp[0]["bad"] == 0 and mwp[0]["n"] > 0, json.dumps(mwp[0].get("rows") if mwp else None))
+    aup = [l for l in lines if l["kind"] == "authprobe"]
+    ck.obligation("BasicAuthMiddleware alone decides on the Authorization header only: across 10 methods x 13 paths (query / userinfo look-alikes) x 7 header "
+                  "sets (pre-flight, upgrade, X-Forwarded-For 127.0.0.1, Proxy-Authorization / X-Api-Key, cookies, probe agents) x 3 remote addresses, "
+                  "absent / wrong credentials never reach next, the right ones always do: %d probes" % (aup[0]["n"] if aup else 0),
+                  bool(aup) and aup[0]["bad"] == 0 and aup[0]["n"] > 1000, json.dumps(aup[0].get("rows") if aup else None)[:1200])
+    if aup and aup[0]["bad"]:
+        r0 = aup[0]["rows"][0]
+        ck.violation({"property": "C20", "kind": "BasicAuthMiddleware lets a request without the credentials through (or refuses the right ones) depending on "
+                      "something other than the Authorization header", "case": {"kind": "authprobe", **r0},
+                      "configured": {"login": aup[0]["login"], "password": aup[0]["pass"]},
+                      "curl": "curl -i -X %s%s http://<qryn>:3100%s   # header set '%s', remote address %s; configured credentials: %s / %s -> observed %d, next called: %s"
+                      % (r0["method"], (" -H %s" % json.dumps("Authorization: " + r0["authorization"])) if r0["authorization"] else "", r0["path"], r0["headers"],
+                         r0["remote"], aup[0]["login"], aup[0]["pass"], r0["status"], r0["next"]),
+                      "replay": "bin/check C20   (harness probe kind=authprobe)"})
     dmp = [l for l in lines if l["kind"] == "defaultmux"]
     dm_status = dmp[0]["status"] if dmp else {}
     ck.extra["default_mux_of_a_process_linking_the_packages"] = dm_status
@@ -273,7 +298,8 @@ def run_locked(ck):
         if exposed:
             where = asm["default_mux_served"][0]
             ck.violation({"property": "C20", "kind": "http.DefaultServeMux is served and exposes handlers outside the router that carries BasicAuth",
-                          "served_at": asm["default_mux_served"], "exposed_paths": {p: dm_status[p] for p in exposed},
+                          "served_at": asm["default_mux_served"],
+                          "serving_call": [c.get("src") for c in census if c["pos"] in asm["default_mux_served"]], "exposed_paths": {p: dm_status[p] for p in exposed},
                           "registered_patterns": asm.get("default_mux_patterns"),
                           "case": {"kind": "defaultmux", "path": exposed[0], "observed_status": dm_status[exposed[0]]},
                           "curl": "curl -i http://<qryn>:<port of the listener opened at %s>%s   # no Authorization header; configured credentials: any" % (where, exposed[0]),
@@ -317,8 +343,34 @@ def run_locked(ck):
                   "login or password empty)" % len(enum), not agg_bad and len(enum) >= 10, "; ".join(agg_bad[:4]))
     ck.extra["configurations_enumerated"] = [{"name": c, "tier": walks[c]["config"].get("tier"), "routes": len(walks[c]["walked"]),
                                               "env": "".join("1" if b else "0" for b in walks[c]["env"])} for c in walks]
-    # which valuations of the atoms did the harness realise?
-    ck.extra["distinct_valuations_exercised"] = len(set(tuple(w["env"]) for w in walks.values()))
+    # which valuations of the atoms did the harness realise?  Realisable by configuration with login and password set:
+    # CORS on/off x (one Mode literal true | none true); ownHttpServer false (main always hands reader.Init the router);
+    # HaveStatic as the build has it; atoms outside the configuration as in the extra configuration
+    kinds_by_id = {a["id"]: a["kind"] for a in asm["atoms"]}
+    mode_ids = [i for i, k in kinds_by_id.items() if k.startswith("mode_eq:")]
+    cors_ids = [i for i, k in kinds_by_id.items() if k == "cors_enable"]
+    exercised = set(tuple(w["env"]) for w in walks.values())
+    base = walks.get("all/B", {}).get("env")
+    missing = []
+    if base:
+        for cors in ([False, True] if cors_ids else [False]):
+            for m in mode_ids + [None]:
+                env = list(base)
+                for i in mode_ids:
+                    env[i] = (i == m)
+                for i in cors_ids:
+                    env[i] = cors
+                if tuple(env) not in exercised:
+                    missing.append("".join("1" if b else "0" for b in env))
+    nreal = (2 if cors_ids else 1) * (len(mode_ids) + 1)
+    ck.obligation("every valuation of the condition atoms that a configuration with login and password can realise (%d: CORS x (each Mode literal | none)) "
+                  "is built with the real router and exercised" % nreal, bool(base) and not missing, "missing valuations: %s" % missing[:5])
+    ck.extra["distinct_valuations_exercised"] = len(exercised)
+    ck.extra["valuations_realisable_with_credentials"] = nreal
+    ow = walks.get("open/login-without-password")
+    ck.obligation("the witness valuation of theorem login_without_password_is_open (gen_open_witness) is the one the harness builds for "
+                  "'login set, password empty, Mode all, CORS off'", bool(ow) and asm.get("open_witness") == ow["env"],
+                  "gen_open_witness=%s harness=%s" % (asm.get("open_witness"), ow and ow["env"]))
 
     # -------- route cases
     cases = [l for l in lines if l["kind"] == "case"]
@@ -468,15 +520,20 @@ def run_locked(ck):
         hist[c["class"]] = hist.get(c["class"], 0) + 1
         rhist[c["rclass"]] = rhist.get(c["rclass"], 0) + 1
         if c["req"]["has_auth"] and len(c["req"]["auth"]) > 12 and c["rclass"] == "route":
-            distinct.add((c["cfg"], c["req"]["method"], c["req"]["path"], c["req"]["auth"], c["req"]["gzip"], c["req"]["origin"]))
+            distinct.add((c["cfg"], c["req"]["method"], c["req"]["path"], c["req"]["auth"], c["req"]["gzip"], c["req"]["origin"],
+                          c["req"].get("preflight"), c["req"].get("upgrade"), c["req"].get("auth2")))
     adist = set((c["login"], c["auth"]) for c in auths if len(c["auth"]) > 12)
     ck.coverage["evaluations"] += len(cases) + len(auths) + len(execs)
     ck.coverage["distinct_nontrivial"] += len(distinct) + len(adist)
     ck.coverage["rule"] += ("routes: every walked route x registered method x %d Authorization classes x Accept-Encoding{none,gzip} x Origin{none,set} in the "
                             "main configuration (mode all, CORS on), 6 classes x rotating combinations in 3 further configurations (CORS off, mode writer, "
-                            "mode reader), other-method / trailing-slash / unrouted paths, plus random header byte strings; non-trivial = a request that "
+                            "mode reader), other-method / trailing-slash / unrouted paths, CORS pre-flight (OPTIONS and the route's own method with "
+                            "Access-Control-Request-Method/-Headers; no / wrong / right credentials), two Authorization header lines, websocket handshakes on the "
+                            "tail route over a real TCP connection, plus random header byte strings; 3 classes + pre-flight on every route in each of the "
+                            "enumerated configurations (all realisable valuations); non-trivial = a request that "
                             "matches a route and carries an Authorization value of more than 6 bytes; distinct by (configuration, method, path, header, flags). "
-                            "auth: BasicAuthMiddleware alone on the classes and random mutations for 4 credential pairs. " % len(set(c["class"] for c in cases if not c["class"].startswith(("random", "right-", "near", "corpus")))))
+                            "auth: BasicAuthMiddleware alone on the classes and random mutations for 7 credential pairs (one with ':' in the login, one with an empty "
+                            "password, one with an empty login, one with both empty). " % len(set(c["class"] for c in cases if not c["class"].startswith(("random", "right-", "near", "corpus")))))
     ck.extra["input_distribution"] = {"authorization_classes": hist, "request_classes": rhist,
                                       "configurations": {k: {"routes": len(w["walked"]), "env": w["env"]} for k, w in walks.items()}}
     samp = [c for c in cases if c["class"] in ("trailing-garbage", "right", "wrong-pass") and c["rclass"] == "route"][:3]
